@@ -105,7 +105,7 @@ def roots(b, operand, depth=0):
             d_ = st["r"].get("def") or ""
             local_struct = st["r"].get("ak") == "adt" and d_ and d_.split("::")[0] not in ("core", "alloc", "std", "futures_channel", "futures_util", "futures_core") and d_ not in HANDLE_ADTS and not st["r"].get("variant", d_.split("::")[-1]) != d_.split("::")[-1]
             # a closure literal, a tuple, or a crate-local plain struct standing in for a closure (`WeakParts { .. }`)
-            if st["r"].get("ak") in ("closure", "tuple") or local_struct:
+            if st["r"].get("ak") in ("closure", "tuple", "coroutine") or local_struct:
                 for a in st["r"]["ops"]:
                     out |= roots(b, a, depth + 1)
             else:
@@ -320,3 +320,9 @@ def check_cfg(ctx, fx, cfg):
     if cfg != "bare":
         from props import c17 as _c17
         _c17.check_join(ctx, fx, cfg, "R15.6")
+    # R15.7 "its timers keep firing": while the actor is held the timers it registered go on — a timer body ends only on a
+    # tick the mailbox refused (the actor is gone), never because a tick took long or a reply did not come (shared with C10)
+    # (the timer APIs exist only with a runtime feature)
+    if cfg != "bare":
+        from props import c10 as _c10
+        _c10.check_timer_protocol(ctx, fx, cfg, "R15.7")
